@@ -6,7 +6,7 @@
    The converse direction of Proofs/Sem_derive_proofs.v (C01). *)
 From TsRs Require Import Base.Str Base.Outcome Gen.Tables Model.Case Model.TsAst Model.Rust Model.Docs Model.Gen
   Spec.TsFree Spec.TsSem Spec.Serde Spec.SerdeDe Spec.RtyInd Proofs.Gen_base_proofs Proofs.Sem_base_proofs Proofs.Sem_lib_proofs
-  Proofs.Sem_alt_proofs Proofs.Sem_derive_proofs Model.Path Model.Merge Model.GenExport.
+  Proofs.Sem_alt_proofs Proofs.Gen_scoped_proofs Proofs.Sem_derive_proofs Model.Path Model.Merge Model.GenExport.
 From Coq Require Import List Lia Bool ZArith.
 Import ListNotations.
 Local Open Scope nat_scope.
@@ -398,13 +398,13 @@ Definition not_param (t : rty) : Prop := match t with RParam _ => False | _ => T
 
 Definition dfield (n : nat) (opt : optional) (fl : field) : Prop :=
   f_flatten fl = false /\ f_type fl = None /\ f_serde_ty fl = f_ty fl /\ pmono R n (f_ty fl) = true /\
-  (f_inline fl = true -> n = 0) /\ small_arr (f_ty fl) = true /\
+  (f_inline fl = true -> pmono R 0 (f_ty fl) = true) /\ small_arr (f_ty fl) = true /\
   match f_optional fl with NotOptional => True | Optional _ => is_option (f_ty fl) = true end /\
   match opt with NotOptional => True | Optional _ => not_param (f_ty fl) end.
 
 (* a flattened field: a struct with named fields (no tag, no flattened field of its own) in a definition without parameters *)
 Definition dflat (n : nat) (f : field) : Prop :=
-  f_flatten f = true /\ f_type f = None /\ f_serde_ty f = f_ty f /\ pmono R n (f_ty f) = true /\ n = 0 /\
+  f_flatten f = true /\ f_type f = None /\ f_serde_ty f = f_ty f /\ pmono R n (f_ty f) = true /\ pmono R 0 (f_ty f) = true /\
   f_optional f = NotOptional /\ small_arr (f_ty f) = true /\ flat_struct R (f_ty f).
 Definition dnfield (n : nat) (opt : optional) (f : field) : Prop := dfield n opt f \/ dflat n f.
 
@@ -456,7 +456,7 @@ Definition not_paramb (t : rty) : bool := match t with RParam _ => false | _ => 
 
 Definition dfieldb (n : nat) (opt : optional) (fl : field) : bool :=
   negb (f_flatten fl) && is_none (f_type fl) && rty_eqb (f_serde_ty fl) (f_ty fl) && pmono R n (f_ty fl) &&
-  (negb (f_inline fl) || Nat.eqb n 0) && small_arr (f_ty fl) &&
+  (negb (f_inline fl) || pmono R 0 (f_ty fl)) && small_arr (f_ty fl) &&
   match f_optional fl with NotOptional => true | Optional _ => is_option (f_ty fl) end &&
   match opt with NotOptional => true | Optional _ => not_paramb (f_ty fl) end.
 
@@ -469,14 +469,14 @@ Proof.
   - apply is_none_eq; assumption.
   - apply rty_eqb_eq; assumption.
   - assumption.
-  - intros Hi. match goal with Hx : (negb (f_inline fl) || Nat.eqb n 0)%bool = true |- _ => rewrite Hi in Hx; cbn in Hx; apply Nat.eqb_eq in Hx; exact Hx end.
+  - intros Hi. match goal with Hx : (negb (f_inline fl) || pmono R 0 (f_ty fl))%bool = true |- _ => rewrite Hi in Hx; cbn [negb orb] in Hx; exact Hx end.
   - assumption.
   - destruct (f_optional fl); [exact I | assumption].
   - destruct opt; [exact I|]. destruct (f_ty fl); try exact I. discriminate.
 Qed.
 
 Definition dflatb (n : nat) (f : field) : bool :=
-  f_flatten f && is_none (f_type f) && rty_eqb (f_serde_ty f) (f_ty f) && pmono R n (f_ty f) && Nat.eqb n 0 &&
+  f_flatten f && is_none (f_type f) && rty_eqb (f_serde_ty f) (f_ty f) && pmono R n (f_ty f) && pmono R 0 (f_ty f) &&
   match f_optional f with NotOptional => true | _ => false end && small_arr (f_ty f) && flat_structb R (f_ty f).
 
 Lemma dflatb_ok n f : dflatb n f = true -> dflat n f.
@@ -486,7 +486,6 @@ Proof.
   repeat split; try assumption.
   - apply is_none_eq; assumption.
   - apply rty_eqb_eq; assumption.
-  - apply Nat.eqb_eq; assumption.
   - destruct (f_optional f); [reflexivity | discriminate].
   - apply flat_structb_ok; assumption.
 Qed.
@@ -604,7 +603,7 @@ Definition tytext (b : bool) (t : rty) : outcome tsty :=
   if b then inl (rsubst gargs t) else name_of R (rsubst gargs t).
 
 (* what is known of the types of the definition *)
-Hypothesis Hty : forall b t a j f, pmono R n t = true -> small_arr t = true -> (b = true -> n = 0) -> tytext b t = Ok a ->
+Hypothesis Hty : forall b t a j f, pmono R n t = true -> small_arr t = true -> (b = true -> pmono R 0 t = true) -> tytext b t = Ok a ->
   f <= F -> mem f (ts a) j = true -> wf_json j = true -> acc (dt (rsubst sargs t) j).
 (* ... and of Option *)
 Hypothesis Hopt : forall u j, acc (dt u j) -> acc (dt (ROption u) j).
@@ -619,7 +618,7 @@ Hypothesis Hcontent : forall tg nm t a j f, struct_content R tg t -> pmono R n t
 Definition conds (ps : list (phead * tsty)) (es : list (str * json)) (f : nat) : Prop :=
   forall p t0, In (p, t0) ps -> match assoc (p_key p) es with Some v => mem f t0 v = true | None => p_optional p = true end.
 
-Hypothesis Hflatd : forall t x, flat_struct R t -> pmono R n t = true -> small_arr t = true -> n = 0 ->
+Hypothesis Hflatd : forall t x, flat_struct R t -> pmono R n t = true -> small_arr t = true -> pmono R 0 t = true ->
   flt (rsubst gargs t) = Ok x ->
   exists ps, pkeys ps = flat_keys R t /\
     (forall k alts, dnf E k (ts x) = Some alts -> alts = [(ps, [])]) /\
@@ -648,7 +647,7 @@ Proof.
   assert (Hoption : forall u, f_ty fl = ROption u ->
                    (if f_inline fl then inl (rsubst gargs u) else name_of R (rsubst gargs u)) = Ok a ->
                    acc (dt (rsubst sargs (f_ty fl)) x)).
-  { intros u Hu Ha'. rewrite Hu. cbn [rsubst]. apply Hopt. rewrite Hu in Hmono, Hsm. cbn [pmono small_arr] in Hmono, Hsm.
+  { intros u Hu Ha'. rewrite Hu. cbn [rsubst]. apply Hopt. rewrite Hu in Hmono, Hsm, Hinl0. cbn [pmono small_arr] in Hmono, Hsm, Hinl0.
     eapply (Hty (f_inline fl) u a x f); eassumption. }
   unfold field_optional in Ha. destruct opt as [|on]; destruct (f_optional fl) as [|fn] eqn:Hfopt; cbn [snd] in Ha.
   - apply Hplain. exact Ha.
@@ -1277,7 +1276,7 @@ Notation E := (env_of is_upper is_alnum is_numeric R gf).
 (* every definition is in the fragment, gets a declaration, and declaration names are distinct *)
 Definition de_envb : bool :=
   forallb (fun p => def_okb is_upper R (snd p) && is_ok (decl_of gf (snd p))) R &&
-  nodupb (map (fun p => ts_ident (snd p)) R).
+  nodupb (map (fun p => ts_ident (snd p)) R) && src_env R.
 
 Hypothesis Hde : de_envb = true.
 
@@ -1285,12 +1284,26 @@ Lemma de_env_facts id d : lookup R id = Some d ->
   def_ok is_upper R (nparams d) d /\ NoDup (map fst (c_params (attrs_of d))) /\
   exists dc, dlookup E (ts_ident d) = Some dc /\ decl_of gf d = Ok dc.
 Proof.
-  unfold de_envb in Hde. apply andb_true_iff in Hde as [Hall Hnd].
+  unfold de_envb in Hde. apply andb_true_iff in Hde as [Hde0 _]. apply andb_true_iff in Hde0 as [Hall Hnd].
   rewrite forallb_forall in Hall. apply nodupb_NoDup in Hnd.
   intros Hlk. pose proof (lookup_in id d R Hlk) as Hin. specialize (Hall _ Hin) as Hd. cbn [snd] in Hd.
   apply andb_true_iff in Hd as [Hp _]. destruct (def_okb_ok is_upper R d Hp) as [Hpd Hnp]. split; [exact Hpd|]. split; [exact Hnp|].
   refine (dlookup_env_of is_upper is_alnum is_numeric R gf R _ Hnd id d Hin).
   intros p Hp'. specialize (Hall p Hp'). apply andb_true_iff in Hall as [_ H2]. exact H2.
+Qed.
+
+Lemma de_env_src : env_ok R.
+Proof. apply src_env_ok. unfold de_envb in Hde. apply andb_true_iff in Hde as [_ H]. exact H. Qed.
+
+Lemma closed_inline_text g' t0 a0 : pmono R 0 t0 = true -> lib_inline R (gen g') t0 = Ok a0 -> ftv a0 = [].
+Proof.
+  intros H0 Ha. pose proof (lib_inline_scoped R _ (gen_scoped is_upper is_alnum is_numeric R de_env_src g') _ _ Ha) as Hi.
+  rewrite (rdummies_closed _ (pmono_src R 0 _ H0)) in Hi. destruct (ftv a0) as [|x l0]; [reflexivity|]. exfalso. exact (Hi x (or_introl eq_refl)).
+Qed.
+Lemma closed_flat_text g' t0 a0 : pmono R 0 t0 = true -> lib_flat R (gen g') t0 = Ok a0 -> ftv a0 = [].
+Proof.
+  intros H0 Ha. pose proof (lib_flat_scoped R _ (gen_scoped is_upper is_alnum is_numeric R de_env_src g') _ _ Ha) as Hi.
+  rewrite (rdummies_closed _ (pmono_src R 0 _ H0)) in Hi. destruct (ftv a0) as [|x l0]; [reflexivity|]. exfalso. exact (Hi x (or_introl eq_refl)).
 Qed.
 
 Lemma gen_ok_unfold g d args r : gen g d args = Ok r ->
@@ -1314,7 +1327,7 @@ Lemma hty_A F1 (HA : PA F1) (HB : forall g, PB F1 g) d args l ps g' n1 :
   length args = nparams d -> forallb mono_ty args = true -> forallb small_arr args = true ->
   omap_list (name_of R) args = Ok l -> NoDup (map fst (c_params (attrs_of d))) -> map fst ps = map fst (c_params (attrs_of d)) ->
   F1 * S gf + g' <= n1 ->
-  forall b t0 a0 j0 f0, pmono R (nparams d) t0 = true -> small_arr t0 = true -> (b = true -> nparams d = 0) ->
+  forall b t0 a0 j0 f0, pmono R (nparams d) t0 = true -> small_arr t0 = true -> (b = true -> pmono R 0 t0 = true) ->
     tytext R (lib_inline R (gen g')) (dummies (attrs_of d)) b t0 = Ok a0 -> f0 <= F1 ->
     memberb E f0 (tsubst (bind_params ps l) (bind_params ps l) a0) j0 = true -> wf_json j0 = true ->
     acc (de_ty R (SerdeDe.ddef is_upper R n1) (rsubst args t0) j0).
@@ -1324,12 +1337,10 @@ Proof.
   { apply (pmono_subst R (nparams d) args); [apply Forall_forall; rewrite forallb_forall in Hargs; exact Hargs | exact Hlen | exact Hpm]. }
   assert (Hsmall : small_arr (rsubst args t0) = true) by (apply small_arr_subst; assumption).
   unfold tytext in Ha0. destruct b.
-  - (* inline: only in definitions without parameters *)
-    specialize (Hb eq_refl). unfold nparams in Hb, Hlen. rewrite Hb in Hlen.
-    destruct args; [|discriminate]. assert (Hc : c_params (attrs_of d) = []) by (destruct (c_params (attrs_of d)); [reflexivity | discriminate]).
-    unfold dummies in Ha0. rewrite Hc in Ha0, Hps. cbn [map] in Ha0, Hps.
-    destruct ps; [|discriminate]. cbn in Hl. inversion Hl; subst l.
-    cbn [bind_params] in Hm0. rewrite tsubst_none in Hm0.
+  - (* inline: the type of the field is closed, so is its text *)
+    specialize (Hb eq_refl). pose proof (pmono_src R 0 _ Hb) as Hsrc0.
+    rewrite (rsubst_closed (dummies (attrs_of d)) _ Hsrc0) in Ha0. rewrite (rsubst_closed args _ Hsrc0) in Hmono, Hsmall |- *.
+    rewrite (tsubst_closed _ _ _ (closed_inline_text g' t0 a0 Hb Ha0)) in Hm0.
     eapply (HB g' n1 _ a0 j0 f0); [exact Hn1 | exact Hf0 | exact Hmono | exact Hsmall | exact Ha0 | exact Hm0 | exact Hwf0].
   - rewrite dummies_eq in Ha0.
     eapply (HA n1 (rsubst args t0) (tsubst (bind_params ps l) (bind_params ps l) a0) j0 f0);
@@ -1344,7 +1355,7 @@ Proof. apply de_option_acc. Qed.
 Lemma hty_B F (HA : PA F) g'' (HBg : PB F g'') d args n1 :
   length args = nparams d -> forallb mono_ty args = true -> forallb small_arr args = true ->
   F * S gf + g'' <= n1 ->
-  forall b t0 a0 j0 f0, pmono R (nparams d) t0 = true -> small_arr t0 = true -> (b = true -> nparams d = 0) ->
+  forall b t0 a0 j0 f0, pmono R (nparams d) t0 = true -> small_arr t0 = true -> (b = true -> pmono R 0 t0 = true) ->
     tytext R (lib_inline R (gen g'')) args b t0 = Ok a0 -> f0 <= F ->
     memberb E f0 (tsubst (fun _ => None) (fun _ => None) a0) j0 = true -> wf_json j0 = true ->
     acc (de_ty R (SerdeDe.ddef is_upper R n1) (rsubst args t0) j0).
@@ -1501,13 +1512,12 @@ Proof.
         destruct n1 as [|n2]; [cbn in Hn; lia|].
         assert (Hct' : struct_content R tg (rsubst args t0)) by (destruct t0; try contradiction; exact Hct).
         apply (content_A F1 IHA IHB tg nm (rsubst args t0) _ j0 f0 n2 Hct' Hmono Hsmall Hname ltac:(lia) Hm0 Hwf0). cbn in Hn. lia.
-      - (* flattened structs: the definition has no parameters *)
-        intros t0 x Hfs Hpm Hsa Hn0 Hx. unfold nparams in Hn0, Hlen, Hpm. rewrite Hn0 in Hlen, Hpm.
-        destruct args; [|discriminate]. assert (Hc : c_params (attrs_of d) = []) by (destruct (c_params (attrs_of d)); [reflexivity | discriminate]).
-        unfold dummies in Hx. rewrite Hc in Hx, Hps. cbn [map] in Hx, Hps. destruct (d_params dc); [|discriminate]. cbn in Hl. inversion Hl; subst l.
-        cbn [bind_params]. rewrite (rsubst_nil0 _ Hpm) in Hx |- *.
-        destruct (flat_B F1 IHA g' (fun g0 _ => IHB g0) t0 x n1 Hfs Hpm Hsa Hx Hn1) as (ps & Hpk & Hdn & Hme & Hacc).
-        exists ps. split; [exact Hpk|]. split; [intros k alts; rewrite tsubst_none; apply Hdn|]. split; [intros j0 f0; rewrite tsubst_none; apply Hme|].
+      - (* flattened structs: the flattened type is closed, so is its text *)
+        intros t0 x Hfs Hpm Hsa Hn0 Hx. pose proof (pmono_src R 0 _ Hn0) as Hsrc0.
+        rewrite (rsubst_closed (dummies (attrs_of d)) _ Hsrc0) in Hx. rewrite (rsubst_closed args _ Hsrc0).
+        rewrite (tsubst_closed _ _ _ (closed_flat_text g' t0 x Hn0 Hx)).
+        destruct (flat_B F1 IHA g' (fun g0 _ => IHB g0) t0 x n1 Hfs Hn0 Hsa Hx Hn1) as (ps & Hpk & Hdn & Hme & Hacc).
+        exists ps. split; [exact Hpk|]. split; [exact Hdn|]. split; [exact Hme|].
         intros es f0 Hf0 Hco Hwf0. apply (Hacc es f0 Hf0); [exact Hco | exact Hwf0]. }
     split; [exact HA|].
     induction g as [g IHg] using lt_wf_ind. intros n t a j f Hn Hf Hm Hsm Ha Hmem Hwf; unfold de.
@@ -1533,8 +1543,8 @@ Proof.
         destruct n1 as [|n2]; [cbn in Hn; lia|].
         assert (Hct' : struct_content R tg (rsubst args t0)) by (destruct t0; try contradiction; exact Hct).
         apply (content_A F1 IHA IHB tg nm (rsubst args t0) a0 j0 f0 n2 Hct' Hmono Hsmall Ha0 Hf0 Hm0 Hwf0). cbn in Hn. lia.
-      * intros t0 x Hfs Hpm Hsa Hn0 Hx. unfold nparams in Hn0, Hlen, Hpm. rewrite Hn0 in Hlen, Hpm.
-        destruct args; [|discriminate]. rewrite (rsubst_nil0 _ Hpm) in Hx |- *.
+      * intros t0 x Hfs Hpm0 Hsa Hn0 Hx. pose proof (pmono_src R 0 _ Hn0) as Hsrc0. pose proof Hn0 as Hpm.
+        rewrite (rsubst_closed args _ Hsrc0) in Hx |- *.
         destruct (flat_B (S F1) HA g' (fun g0 Hlt => IHg g0 (Nat.lt_lt_succ_r _ _ Hlt)) t0 x n1 Hfs Hpm Hsa Hx Hn1) as (ps & Hpk & Hdn & Hme & Hacc).
         exists ps. split; [exact Hpk|]. split; [intros k alts; rewrite tsubst_none; apply Hdn|]. split; [intros j0 f0; rewrite tsubst_none; apply Hme|].
         intros es f0 Hf0 Hco Hwf0. apply (Hacc es f0 Hf0); [exact Hco | exact Hwf0].
